@@ -25,6 +25,7 @@ THEOREMS = [
     "Vinegar.C05.deny_before_effects_sqlite",
     "Vinegar.C05.unauthorised_independent_of_world",
     "Vinegar.C05.unauthorised_sqlite_store_untouched",
+    "Vinegar.C05.unauthorised_sqlite_body_irrelevant",
 ]
 TRUSTED_BASE = [
     "Lean 4 kernel; axioms of every theorem audited ⊆ {propext, Classical.choice, Quot.sound}",
@@ -231,6 +232,20 @@ def _handler_cases(rng, tier, mult):
                 case["body"] = "new-text"
             elif cfg["action"] == "set_json_value_from_request_body":
                 case["body"] = '{"v": "new"}'
+            if "body" in case and rng.random() < 0.4:
+                # a body (or a Content-Length) that cannot be decoded: 400 for a client that may update, and
+                # exactly what any other body gives (403 ...) for one that may not
+                bad = rng.choice(["utf8", "length"] + (["json", "empty"] if "json" in cfg["action"] else ["utf8"]))
+                if bad == "utf8":
+                    case["body_hex"] = "fffe2261"
+                elif bad == "length":
+                    case["content_length"] = rng.choice(["abc", "", "1e3"])
+                elif bad == "json":
+                    case["body"] = '{"v": '
+                else:
+                    case["body"] = ""
+                case["body_ok"] = False
+                case["_meta"]["body"] = "bad-" + bad
         # earlier requests on the same handler object: (a) the same client while the stored data admitted it,
         # (b) another client with the same data, (c) the same client while nothing was found
         if rng.random() < 0.35:
@@ -323,9 +338,11 @@ def model_requests(case, obs):
                  "ds_action": cfgc.get("ds_action", "error"), "no_result": cfgc.get("no_result", "not_found"),
                  "template": bool(cfgc.get("template"))},
          "world": {"find": w["find"], "data": w["data"], "file": _world_file(w["file"])}}
+    if case["handler"] == "sqlite":
+        r["body_ok"] = bool(case.get("body_ok", True))
     if "outcome" in obs:
         e = _impl_effects(case, obs)
-        o = e["outcome"] if e["outcome"] in ("served", "not_found", "forbidden", "ds_error", "internal_error") else "internal_error"
+        o = e["outcome"] if e["outcome"] in ("served", "not_found", "forbidden", "ds_error", "internal_error", "bad_request") else "internal_error"
         r["spec"] = sp
         r["obs"] = {"outcome": o, "file_touched": e["file_touched"], "rendered": e["rendered"],
                     "store_ops": e["store_ops"], "ds_failed": bool(obs.get("ds_failed"))}
